@@ -4,7 +4,7 @@ import DirectVerif.Model.MaskBudget
 # Driver C07 — the budget model executed on recorded draws
 
   `random N L Rn Rd | k₀ k₁ …`           uniforms `u_i = k_i / 2^53` as recorded       → `ok count | bits`
-  `equi N L Rn Rd off`                                             → `ok count count-by-decomposition bound | positions`
+  `equi N L Rn Rd off`                                             → `ok count count-by-decomposition bound | grid points outside the ACS` or `err …`
   `equienum N L Rn Rd`   every offset `0 ≤ off < round(adjusted)`, via `equiCountFast` (= `equiCount` by
                          `equi_count_decomp`)                                             → `ok bound | counts`
   `gauss1d N L Rn Rd | candidates`        candidate columns of the libc stream           → `ok k returned count | bits`
@@ -35,12 +35,19 @@ def step (op : String) (gs : List (List Int)) : String :=
     let m := randomMask N L p (ks.map fun k => mkRat k (2 ^ 53))
     okG [[countTrue m], bits m]
   | "equi", [[N, L, Rn, Rd, off]] =>
-    let a := adjAccel N (q Rn Rd) L
-    okG [[equiCount N L (q Rn Rd) off, equiCountFast N L a off, offsetBound a], equiPositions N a off]
+    match equiReject N L (q Rn Rd) with
+    | some e => "err " ++ e
+    | none =>
+      let a := adjAccel N (q Rn Rd) L
+      okG [[equiCount N L (q Rn Rd) off, equiCountFast N L a off, offsetBound a],
+           (equiPositions N a off).filter fun p => !inAcs N L p]
   | "equienum", [[N, L, Rn, Rd]] =>
-    let a := adjAccel N (q Rn Rd) L
-    let b := offsetBound a
-    okG [[b], (List.range b.toNat).map fun (o : Nat) => (equiCountFast N L a (o : Int) : Int)]
+    match equiReject N L (q Rn Rd) with
+    | some e => "err " ++ e
+    | none =>
+      let a := adjAccel N (q Rn Rd) L
+      let b := offsetBound a
+      okG [[b], (List.range b.toNat).map fun (o : Nat) => (equiCountFast N L a (o : Int) : Int)]
   | "gauss1d", [[N, L, Rn, Rd], cands] =>
     let k := gaussianRequest ((N : Rat) / q Rn Rd) L
     match gaussLoop k cands 0 (acsMask N L) with
